@@ -474,6 +474,10 @@ SCRIPTED = [
      {"sd.f90": "module sd\n implicit none\n integer :: keep_me\n integer :: drop_me\n !> the old words\n integer :: documented\nend module sd\n",
       "su.f90": "program su\n use sd\n implicit none\n keep_me = 1\n documented = 2\nend program su\n"},
      [("open", "sd.f90"), ("open", "su.f90"), ("query", "su.f90"), ("ins", "sd.f90", 3, 1, "!"), ("del", "sd.f90", 4, 8, 11), ("ins", "sd.f90", 4, 8, "new"), ("save", "sd.f90")]),
+    ("nothing but a doc comment reworded by one-line edits, then saved (no edit that asks for a re-parse in between)",
+     {"sd2.f90": "module sd2\n implicit none\n !> the old words\n integer :: documented2\nend module sd2\n",
+      "su2.f90": "program su2\n use sd2\n implicit none\n documented2 = 2\nend program su2\n"},
+     [("open", "sd2.f90"), ("open", "su2.f90"), ("query", "su2.f90"), ("del", "sd2.f90", 2, 8, 11), ("ins", "sd2.f90", 2, 8, "new"), ("save", "sd2.f90")]),
     ("an included file edited down to a comment and saved",
      {"si_main.f90": "module si_main\n implicit none\n include 'si_inc.f90'\ncontains\n subroutine s()\n  k_from_inc = 1\n end subroutine s\nend module si_main\n",
       "si_inc.f90": "integer :: k_from_inc\n"},
